@@ -314,6 +314,50 @@ func (c *Ctx) Bin(op Op, a, b *Term) *Term {
 		if b.IsConst() && a.Op == OAdd && a.Args[1].IsConst() {
 			return c.Bin(OAdd, a.Args[0], c.BV(w, a.Args[1].Val+b.Val))
 		}
+		// sums of sums: associative-commutative normal form (leaves sorted by id, left-deep, constant
+		// last), so that the same multiset of summands added in a different order is the same term
+		if a.Op == OAdd || b.Op == OAdd {
+			var leaves []*Term
+			var k uint64
+			ok := true
+			var collect func(t *Term)
+			collect = func(t *Term) {
+				if !ok {
+					return
+				}
+				switch {
+				case t.Op == OAdd:
+					collect(t.Args[0])
+					collect(t.Args[1])
+				case t.IsConst():
+					k += t.Val
+				default:
+					leaves = append(leaves, t)
+					if len(leaves) > 96 {
+						ok = false
+					}
+				}
+			}
+			collect(a)
+			collect(b)
+			if ok && len(leaves) > 0 {
+				key := func(t *Term) int {
+					for t.Op == OZExt || t.Op == OSExt {
+						t = t.Args[0] // same order whatever the width the summands were extended to
+					}
+					return t.ID
+				}
+				sort.SliceStable(leaves, func(i, j int) bool { return key(leaves[i]) < key(leaves[j]) })
+				acc := leaves[0]
+				for _, l := range leaves[1:] {
+					acc = c.mk(OAdd, w, 0, "", acc, l)
+				}
+				if k&m != 0 {
+					acc = c.mk(OAdd, w, 0, "", acc, c.BV(w, k))
+				}
+				return acc
+			}
+		}
 	case OSub:
 		if b.IsConst() && b.Val == 0 {
 			return a
@@ -529,6 +573,10 @@ func (c *Ctx) Extract(a *Term, hi, lo int) *Term {
 	case OAdd, OSub, OMul:
 		if lo == 0 {
 			return c.Bin(a.Op, c.Extract(a.Args[0], hi, 0), c.Extract(a.Args[1], hi, 0))
+		}
+		if hi+1 < a.W {
+			// bits hi..lo depend on the low hi+1 bits of the operands only: compute in the narrow width
+			return c.Extract(c.Extract(a, hi, 0), hi, lo)
 		}
 	case ONeg:
 		if lo == 0 {
